@@ -23,6 +23,7 @@ PASS_THROUGH = {
     "std::string::String::as_bytes", "core::str::<impl str>::as_bytes",
     "core::str::<impl str>::to_string", "core::str::<impl str>::to_owned",
     "std::iter::Iterator::by_ref", "std::hint::must_use",
+    "std::result::Result::<T, E>::map_err",      # keeps the variant and the Ok payload
     "std::option::Option::<T>::as_ref", "std::option::Option::<T>::as_mut",
     "std::result::Result::<T, E>::as_ref",
     "std::option::Option::<&T>::cloned", "std::option::Option::<&T>::copied",
@@ -465,6 +466,13 @@ class Fn:
 
     def _call_origins(self, cs, steps, visiting):
         p = cs.path
+        if p == "std::ops::Try::branch" and cs.args and len(steps) >= 2 and steps[0] == ("variant", "Continue") and steps[1] == ("field", 0):
+            # `x?`: the Continue payload is the Ok / Some payload of x
+            aty = ""
+            if cs.args[0]["k"] in ("copy", "move"):
+                aty = self.local_ty(cs.args[0]["place"]["local"])["s"]
+            v = "Some" if aty.startswith("std::option::Option") else "Ok"
+            return self._op_origins(cs.args[0], (("variant", v), ("field", 0)) + tuple(steps[2:]), visiting)
         if p in PASS_THROUGH and cs.args:
             return self._op_origins(cs.args[0], steps, visiting)
         if p in ITER_SOURCES and cs.args:
@@ -595,7 +603,7 @@ class Fn:
             if rv["k"] == "discriminant":
                 continue
             if rv["k"] == "use" and rv["op"]["k"] == "const" and rv["op"]["ty"]["s"] == "bool" \
-                    and not st["place"]["proj"] and st["place"]["local"] not in self.names:
+                    and not st["place"]["proj"] and st["place"]["local"] not in self.names and st["place"]["local"] != 0:
                 continue
             return False
         return b["term"]["k"] in ("drop", "goto", "switch", "return")
